@@ -307,7 +307,7 @@ pub fn main(args: Args) -> i32 {
             level: "exploration",
             tier: args.tier,
             seed: args.seed,
-            rule: format!("all names of 1..={} segments over the 15-segment alphabet ('', '.', '..', '...', 'a', '.a', 'a.', 'a..b', 'a\\\\b', '..\\\\a', NUL, '%2e%2e', two unicode dot look-alikes, 300-char) joined by '/', plus 23 hand-written traversal spellings, each through get_template, include, extends and import (name computed in the template) against a real tree with 24 files inside the base and OUT canaries in the parent, grandparent and a sibling directory under every name the traversals would reach; oracle: error / missing / content starting with IN:. histories: one loader instance looks up every primer (all names of 1 and 2 segments, every pair of one-segment names, thorough also 3 segments, plus 11 trailing/inner/leading-slash spellings, through get_template and through include) and then each of 14 probe names (inside, hidden, missing, and names that exist relative to ancestors of the base); the answer must equal a fresh loader's. distinct non-trivial = (route,name) pairs that served a file inside the base", maxlen),
+            rule: format!("all names of 1..={} segments over the 19-segment alphabet ('', '.', '..', '...', 'a', '.a', 'a.', 'a..b', backslash forms, NUL, '%2e%2e', two unicode dot look-alikes, 300-char, and four directories that exist inside the base with names of 1-, 2-, 3- and 4-byte characters) joined by '/', plus 23 hand-written traversal spellings, each through get_template, include, extends and import (name computed in the template) against a real tree with 24 files inside the base and OUT canaries in the parent, grandparent and a sibling directory under every name the traversals would reach; oracle: error / missing / content starting with IN:. histories: one loader instance looks up every primer (all names of 1 and 2 segments, every pair of one-segment names, thorough also 3 segments, plus 11 trailing/inner/leading-slash spellings, through get_template and through include) and then each of 14 probe names (inside, hidden, missing, and names that exist relative to ancestors of the base); the answer must equal a fresh loader's. distinct non-trivial = (route,name) pairs that served a file inside the base", maxlen),
             exhaustive: true,
             bound: json!({"segments": segments().iter().map(|s| if s.len() > 20 { "x*300".to_string() } else { s.clone() }).collect::<Vec<_>>(), "max_segments": maxlen, "routes": ROUTES}),
             assumptions: vec!["Unix path semantics; symbolic links are outside the property".into()],
